@@ -413,8 +413,112 @@ def cmd_case(item):
     return res
 
 
+def oob_case(item):
+    """Names handed from one redo process to another (the out-of-band step): a consumer whose script runs in a directory other
+    than the consumer's own (an ancestor default rule, or a script that changes directory) asks - through some spelling - for a
+    target that is only "maybe out of date" (it sits above a checksummed target whose input changed).  redo brings the checksummed
+    target up to date in a separate process; every name must still denote the file it denoted."""
+    _, mid_dir, consumer, idx, change, j, seed = item
+    pj = scen.Project({}, 'c15o')
+    top = os.path.realpath(pj.top)
+    anoms = []
+    obs = dict(command_cases=1, commands=0)
+    sets = dict(spelling_kinds=[], oob_consumers=[consumer])
+    try:
+        for d in ('sub/deep', 'other'):
+            os.makedirs(os.path.join(top, d))
+        os.symlink('sub/deep', os.path.join(top, 'ln'))
+        os.symlink('sub', os.path.join(top, 'lnsub'))
+        W = lambda rel, text: common.write_file(os.path.join(top, rel), text)        # noqa: E731
+        W('src', 'a1\n')
+        W('src2', 'x0\n')
+        hdr = scen.TRACE_HDR + 'echo "S $1 $$ $PPID" >&9\n'
+        st = posixpath.join(mid_dir, 'st.out')
+        mid = posixpath.join(mid_dir, 'mid.out')
+        W(st + '.do', hdr + 'redo-ifchange "$RV_TOP/src"\ncut -c1 "$RV_TOP/src" > "$3"\nredo-stamp < "$3"\necho "E $1 $$ 0" >&9\n')
+        W(mid + '.do', hdr + 'redo-ifchange st.out\ncat st.out > "$3"\necho "E $1 $$ 0" >&9\n')
+        # the consumer: where its script runs differs from where it lives
+        if consumer == 'ancestor-default':
+            cons, cwd_of_script = 'sub/deep/c.gen', ''
+            rule = 'default.gen.do'
+            pre = ''
+        elif consumer == 'parent-default':
+            cons, cwd_of_script = 'sub/deep/c.gen', 'sub'
+            rule = 'sub/default.gen.do'
+            pre = ''
+        else:   # its own rule, which changes directory before asking
+            cons, cwd_of_script = 'other/c.gen', 'sub'
+            rule = 'other/c.gen.do'
+            pre = 'cd'
+        sp = spellings(top, cwd_of_script, mid)
+        label, spelled = sp[idx % len(sp)]
+        sets['spelling_kinds'] = [label]
+        ask = 'redo-ifchange "$RV_TOP/src2" "%s"' % spelled
+        if pre == 'cd':
+            ask = '(cd "$RV_TOP/sub" && %s)' % ask
+        W(rule, hdr + ask + '\ncat "$RV_TOP/%s" "$RV_TOP/src2" > "$3"\necho "E $1 $$ 0" >&9\n' % mid)
+        env_extra = {'RV_TOP': top}
+
+        def run(argv, slots=None):
+            r, _ = pj.run(argv, cwd=top, slots=slots, extra=env_extra)
+            obs['commands'] += 1
+            for a in scen.crash_anoms(r, pj.logs_text(), 'c15'):
+                if a['cls'] == 'timeout':
+                    raise TimeoutError()
+                anoms.append(dict(key='%s:oob' % a['cls'], what='%s -> %s' % (argv, a['what'][:300])))
+            return r
+        r = run(['redo-ifchange', cons])
+        if r.rc != 0 and not anoms:
+            anoms.append(dict(key='nonzero:oob:first-build', what='%s (%s, mid through %r): exit %s: %s' % (cons, consumer, spelled, r.rc, r.err[-300:].replace('\n', ' | '))))
+        open(pj.trace, 'w').close()
+        # edit below the checksummed target (checksum kept or changed) and the consumer's own source: the consumer's script runs
+        # and meets `mid` as "maybe out of date"
+        W('src', 'a2 longer\n' if change == 'same-checksum' else 'b2 longer\n')
+        W('src2', 'x1 longer\n')
+        for f in ('src', 'src2'):
+            os.utime(os.path.join(top, f), ns=(int(time.time() * 1e9) + 3 * 10 ** 9,) * 2)
+        argv = ['redo-ifchange', cons] if j == 1 else ['redo-ifchange', cons]
+        r = run(argv, slots=(j if j > 1 else None))
+        if r.rc != 0 and not anoms:
+            anoms.append(dict(key='nonzero:oob', what='%s (%s, mid through %r, %s) after the edits: exit %s: %s' % (cons, consumer, spelled, change, r.rc, r.err[-300:].replace('\n', ' | '))))
+        ex = executed(parse_trace(pj.trace_text()))
+        want = {posixpath.basename(cons): 1, 'st.out': 1}
+        if change != 'same-checksum':
+            want['mid.out'] = 1
+        got = {posixpath.basename(k): v for k, v in ex.items()}
+        if not anoms and got != want:
+            anoms.append(dict(key='executions:oob:%s' % change, what='after the edits %s ran, expected %s (%s, mid through %r)' % (got, want, consumer, spelled)))
+        body = common.read_file(os.path.join(top, cons))
+        wantb = (b'a\n' if change == 'same-checksum' else b'b\n') + b'x1 longer\n'
+        if not anoms and body != wantb:
+            anoms.append(dict(key='stale:oob', what='%s holds %r, expected %r' % (cons, body, wantb)))
+        if os.path.exists(os.path.join(top, '.redo', 'db.sqlite3')):
+            for rel in (mid, st, cons):
+                hit, names = rows_for(top, rel)
+                obs['files_rows_seen'] = len(names)
+                if len(hit) != 1:
+                    anoms.append(dict(key='records-not-one:oob', what='%d Files rows denote %s: %s' % (len(hit), rel, hit)))
+                elif hit[0] != rel:
+                    anoms.append(dict(key='record-name-not-canonical:oob', what='%s is recorded as %r' % (rel, hit[0])))
+            stray = [n for n in names if n.startswith('..') or (not n.startswith('//') and not os.path.lexists(os.path.join(top, n)) and not n.endswith('.do')
+                                                                and posixpath.basename(n) in ('st.out', 'mid.out', 'c.gen', 'src', 'src2'))]
+            if stray:
+                anoms.append(dict(key='stray-record:oob', what='Files rows for files that do not exist / lie outside: %s' % stray[:5]))
+    except TimeoutError:
+        return dict(verdict='inconclusive', why='watchdog without stuck witness', sample=dict(item=list(item)))
+    finally:
+        pj.close()
+    res = dict(verdict='violated' if anoms else 'held', nontrivial=True, shape=common.shash(list(item)),
+               sample=dict(kind='out-of-band', mid_dir=mid_dir, consumer=consumer, change=change, j=j), obs=obs, sets=sets)
+    if anoms:
+        seen = set()
+        res['violations'] = [a for a in anoms if not (a['key'] in seen or seen.add(a['key']))]
+        res['replay'] = dict(kind='command', item=list(item))
+    return res
+
+
 def dispatch(item):
-    return {'norm': direct_norm, 'rand': direct_random, 'rel': direct_rel, 'cmd': cmd_case}[item[0]](item)
+    return {'norm': direct_norm, 'rand': direct_random, 'rel': direct_rel, 'cmd': cmd_case, 'oob': oob_case}[item[0]](item)
 
 
 RULE = ('layer A (direct calls through native/harness): normpath on every byte string over {a,b,.,/} up to length 7 (quick) / 8 (thorough) and over '
@@ -425,7 +529,7 @@ RULE = ('layer A (direct calls through native/harness): normpath on every byte s
         'realdirpath keeps the final component and canonicalises the directory part. Layer B (commands): one file, 8-12 spellings (relative, '
         'absolute, ./, //, dir/../, through two symlinked directories, symlink-then-..) from 4 working directories; two or three spellings on '
         'one command line (redo and redo-ifchange, -j1 and -j4; also while another invocation holds the lock of the target), in consecutive commands, and as a dependency declared by a consumer: exactly '
-        'one script execution, exit 0, no abort, exactly one Files row, named canonically; the consumer is rebuilt when the real file changes. '
+        'one script execution, exit 0, no abort, exactly one Files row, named canonically; the consumer is rebuilt when the real file changes; out-of-band hand-over: a consumer whose script runs outside its own directory (ancestor / parent default rule, script that changes directory) asks through a spelling for a target that is only maybe out of date (above a checksummed target whose input changed, checksum kept or not): executions, bytes, one canonical Files row each, no stray rows. '
         'Layer C: the same normpath / abs_path / RedoPath workloads (with the reference check inside) interpreted by Miri.')
 ASSUME = ['lexical cleaning is compared with the kernel only on symlink-free trees', 'relpath bases are physical directories (as at redo\'s call sites)',
           'paths ending in . or .. or / are not targets']
@@ -455,6 +559,11 @@ def main(tier):
                     k = 1 if mode == 'dependency' else rnd.choice([2, 2, 3])
                     idxs = tuple(rnd.sample(range(13), k))
                     cmd_items.append(('cmd', t, c, idxs, mode, rnd.choice([1, 4]), rnd.randrange(1000)))
+    for mid_dir in ('', 'sub', 'sub/deep', 'other'):
+        for consumer in ('ancestor-default', 'parent-default', 'cd-script'):
+            for change in ('same-checksum', 'new-checksum'):
+                for rep in range(1 if quick else 6):
+                    cmd_items.append(('oob', mid_dir, consumer, rnd.randrange(13), change, rnd.choice([1, 3]), rnd.randrange(1000)))
     rnd.shuffle(cmd_items)
     items += cmd_items
     common.ensure_native()
